@@ -132,10 +132,19 @@ def clippedRows (rows : List Row) (margin : Int) : List Rect :=
     if r.rect.width ≤ 2 * margin then none
     else some ⟨r.rect.minX + margin, r.rect.maxX - margin, r.rect.minY, r.rect.maxY⟩
 
+/-- the regions `fromIspdCircuit` hands to the constructor: the clipped free rows; when the margin removes
+every row, the free rows themselves; when there is no free row at all but the circuit has rows, the
+circuit's placement area (`Circuit::computePlacementArea`) -/
+def ispdRegions (c : Circuit) (margin : Int) : List Rect :=
+  if (clippedRows c.computeRows margin).isEmpty then
+    (if c.computeRows.isEmpty then (if c.rows.isEmpty then [] else [c.placementArea])
+     else c.computeRows.map fun r => r.rect)
+  else clippedRows c.computeRows margin
+
 /-- `DensityGrid::fromIspdCircuit(circuit, sizeFactor, sideMargin)`; the floats are given as mantissa/exponent -/
 def DGrid.fromIspdCircuit (c : Circuit) (sfMant sfExp smMant smExp : Int) : DGrid :=
-  let h := minCellHeight c
-  DGrid.ofRegions (floatMulTrunc sfMant sfExp h) (clippedRows c.computeRows (floatMulTrunc smMant smExp h))
+  DGrid.ofRegions (floatMulTrunc sfMant sfExp (minCellHeight c))
+    (ispdRegions c (floatMulTrunc smMant smExp (minCellHeight c)))
 
 /-- demands of `HierarchicalDensityPlacement::fromIspdCircuit` (`int` truncation of the `long long` area is
 outside the domain: areas < 2^31) -/
